@@ -487,6 +487,13 @@ func (self *Core) runInstruction(instruction compiler.Instruction) *value.VmInte
 		case value.IntValueKind:
 			lInt := l.(value.ValueInt)
 			rInt := r.(value.ValueInt)
+			if rInt.Inner < 0 {
+				return self.fatalErr(
+					"Negative shift amount: this is operation is illegal",
+					value.Vm_ValueErrorKind,
+					self.parent.SourceMap(*self.callFrame()),
+				)
+			}
 			self.push(value.NewValueInt(lInt.Inner << rInt.Inner))
 		default:
 			panic("This value combination is unsupported")
@@ -499,6 +506,13 @@ func (self *Core) runInstruction(instruction compiler.Instruction) *value.VmInte
 		case value.IntValueKind:
 			lInt := l.(value.ValueInt)
 			rInt := r.(value.ValueInt)
+			if rInt.Inner < 0 {
+				return self.fatalErr(
+					"Negative shift amount: this is operation is illegal",
+					value.Vm_ValueErrorKind,
+					self.parent.SourceMap(*self.callFrame()),
+				)
+			}
 			self.push(value.NewValueInt(lInt.Inner >> rInt.Inner))
 		default:
 			panic("This value combination is unsupported")
